@@ -381,12 +381,17 @@ func (t *ART) newNode4() (artNode, *node4) {
 
 func (t *ART) newLeaf(key artKey) (artNode, *artLeaf) {
 	addr, lf := t.allocator.allocLeaf(key)
+	// A new leaf is a new entry, count it here: later on a leaf without flags and value
+	// cannot be told from a new one.
+	t.len++
+	t.size += len(key)
 	return artNode{kind: typeLeaf, addr: addr}, lf
 }
 
 func (t *ART) setValue(addr arena.MemdbArenaAddr, l *artLeaf, value []byte, ops []kv.FlagsOp) {
 	flags := l.GetKeyFlags()
-	if flags == 0 && l.vLogAddr.IsNull() || l.isDeleted() {
+	if l.isDeleted() {
+		// The entry was removed by a cleanup and comes back now.
 		t.len++
 		t.size += int(l.keyLen)
 	}
